@@ -375,6 +375,52 @@ void misc_phase(World& w, const Task& t, Agg& a)
         if (!removed_ok) a.violation("playlist_row|remove", "[" + sn + "] playlist row still present after remove()", sn + "|P|remove");
         else a.count("validated");
     }
+    // ---- playlist rows: an update() that also moves the row (other parent and / or other successor) takes the re-linking
+    // path of the implementation; every field of the written row must still read back, for every flag combination
+    {
+        auto mk = [&](const std::string& title, int64_t parent) { return pl.add(v2::playlist_row{v2::PLAYLIST_ROW_ID_NONE, title, parent, false, v2::PLAYLIST_NO_NEXT_LIST_ID, tpt{seconds{5}}, false}); };
+        int64_t A = mk("mvA", 0), B = mk("mvB", 0), C = mk("mvC", 0), a1 = mk("mv1", A), a2 = mk("mv2", A);
+        (void)a2;
+        int step = 0;
+        for (int64_t subject : {a1, C})
+            for (auto target : std::vector<std::pair<int64_t, int>>{{0, -1}, {0, 0}, {A, -1}, {A, 0}, {B, -1}, {A, 1}, {0, 1}})
+                for (bool persisted : {false, true})
+                    for (bool exported : {false, true})
+                    {
+                        ++step;
+                        a.count("evaluations");
+                        const std::string cid = sn + "|P|playlist_move#" + std::to_string(step);
+                        try
+                        {
+                            auto lst = target.first == 0 ? pl.root_ids() : pl.child_ids(target.first);
+                            std::vector<int64_t> sibs;
+                            for (auto x : lst)
+                                if (x != subject) sibs.push_back(x);
+                            int64_t next = target.second < 0 || sibs.empty() ? 0 : sibs[(size_t)target.second % sibs.size()];
+                            v2::playlist_row row{subject, "mv-moved" + std::to_string(step), target.first, persisted, next, tpt{seconds{1700000000 + step}}, exported};
+                            pl.update(row);
+                            auto got = pl.get(subject);
+                            std::string diff;
+                            if (!got) diff = "row is gone";
+                            else
+                            {
+                                if (got->title != row.title) diff += " title";
+                                if (got->parent_list_id != row.parent_list_id) diff += " parentListId";
+                                if (got->is_persisted != row.is_persisted) diff += " isPersisted";
+                                if (got->next_list_id != row.next_list_id) diff += " nextListId";
+                                if (got->last_edit_time != row.last_edit_time) diff += " lastEditTime";
+                                if (got->is_explicitly_exported != row.is_explicitly_exported) diff += " isExplicitlyExported";
+                            }
+                            if (!diff.empty())
+                                a.violation("playlist_row|update_move|not_preserved", "[" + sn + "] playlist update() moving a row to parent " + std::to_string(target.first) + " before " + std::to_string(next) + " with isPersisted=" + std::to_string(persisted) + " isExplicitlyExported=" + std::to_string(exported) + " reads back differently in:" + diff, cid);
+                            else a.count("validated");
+                        }
+                        catch (const std::exception& e)
+                        {
+                            a.violation("playlist_row|update_move|rejected", "[" + sn + "] playlist update() moving a row threw: " + exname(e) + ": " + e.what(), cid);
+                        }
+                    }
+    }
     // ---- playlist entity rows
     int64_t t1 = tt.add(base_row(0)), t2 = tt.add(base_row(1));
     for (int64_t track : {t1, t2})
@@ -490,7 +536,7 @@ int run(const Options& o)
         "get() must equal the written row except id, last-edit time and the origin pair when it was empty (then origin id = id and origin uuid = library uuid); every per-column getter must equal "
         "the row's field; a bystander row must not change. Columns: for each of the 48 columns two values are set through the per-column setter in every state reachable by at most one other "
         "setter call (all ordered pairs): getter returns the value, get() shows it, no other column of either row changes (last-edit time excepted), columns a schema does not have must throw. "
-        "Also playlist_row add / get / update (flags and time only; rename) / remove, playlist_entity_row add_back with own and foreign uuid and membership references, information_table get vs "
+        "Also playlist_row add / get / update (flags and time only; rename; moves of a leaf child and a leaf root to 7 (parent, successor) targets x 4 flag combinations with every field compared) / remove, playlist_entity_row add_back with own and foreign uuid and membership references, information_table get vs "
         "the raw row and update_current_played_indicator, and every per-column accessor, update and remove on a nonexistent id (must throw).";
     c["exhaustive"] = exhaustive;
     Json b = Json::object();
